@@ -53,10 +53,18 @@ func c16Replay(c *lib.Ctx) {
 		obs, keys := c16RunHist(h)
 		fmt.Printf("  history        : %s\n  implementation : %s\n  model          : %s\n", h.text(keys), strings.Join(obs, " "), strings.TrimPrefix(model, "ok "))
 		c16CheckHist(c, h, model)
-	case "type", "compound":
+	case "classhist":
+		h := c16DynHist{ops: c16Strings(rec["ops"])}
+		model := c.Model([]string{"type classhist " + strings.Join(h.ops, " ")})[0]
+		r := c16DynRunHist(h)
+		fmt.Printf("  history        : %s\n  implementation : %s\n  model          : %s\n", strings.Join(r.text, " "), strings.Join(r.obs, " "), strings.TrimPrefix(model, "ok "))
+		c16DynCheck(c, h, model)
+	case "type", "compound", "ext":
 		// the type families are (mostly) fixed exhaustive tables: re-run them and keep the recorded cell
 		if family == "type" {
 			c16TypeFamily(c)
+		} else if family == "ext" {
+			c16ExtFamily(c)
 		} else {
 			c.Seed = c16ReplaySeed(rec)
 			c.Tier, _ = rec["tier"].(string)
